@@ -22,6 +22,26 @@ from pox.lib.revent import *
 import time
 import math
 
+def _strip_host_bits (match):
+  """
+  Returns match with the nw_src/nw_dst bits beyond the prefix length cleared
+
+  OpenFlow says the switch ignores these bits, but ofp_match compares them
+  (and its network tests fail on them), so the table only ever stores and
+  compares normalized matches.
+  """
+  result = match
+  for attr in ('nw_src', 'nw_dst'):
+    ip,bits = getattr(match, 'get_' + attr)()
+    if ip is None or bits >= 32: continue
+    ip = IPAddr(ip)
+    network = IPAddr(ip.toUnsigned() & ~((1 << (32 - bits)) - 1))
+    if network != ip:
+      if result is match: result = match.clone()
+      getattr(result, 'set_' + attr)((network, bits))
+  return result
+
+
 # FlowTable Entries:
 #   match - ofp_match (13-tuple)
 #   counters - hash from name -> count. May be stale
@@ -49,7 +69,7 @@ class TableEntry (object):
     self.idle_timeout = idle_timeout
     self.hard_timeout = hard_timeout
     self.flags = flags
-    self.match = match
+    self.match = _strip_host_bits(match)
     self.actions = actions
     self.buffer_id = buffer_id
 
@@ -91,6 +111,7 @@ class TableEntry (object):
     If out_port is any value besides None, the the flow entry must contain an
     output action to the specified port.
     """
+    match = _strip_host_bits(match)
     match_a = lambda a: isinstance(a, ofp_action_output) and a.port == out_port
     port_matches = (out_port is None) or any(match_a(a) for a in self.actions)
 
